@@ -7,7 +7,8 @@ import warnings
 ID = 'C18'
 LEVEL = 'other'
 TARGETS = ['selfies/grammar_rules.py::process_branch_symbol',
-           'selfies/grammar_rules.py::process_ring_symbol']
+           'selfies/grammar_rules.py::process_ring_symbol',
+           'selfies/utils/smiles_utils.py::smiles_to_atom']
 EXPLANATION = (
     "BOUNDED stand-in (not counted as proved) plus every deductive clause listed in coverage.clauses. GROUND (finite, "
     "complete): the update table of the running module equals the documented legacy->modern mapping for all L, M in "
